@@ -317,6 +317,20 @@ fn main() {
         wait_all(&mut traced, &mut dummy, &mut failed2, began);
         for (s, tf, why) in tracefiles {
             let again = failed2.iter().find(|(s2, _)| *s2 == s);
+            // A traced worker that ran out of time is a hang only if it sat on one case: if the trace file was
+            // still growing shortly before the deadline the worker was merely slow (loaded machine), which is a
+            // machinery failure, never a verdict.
+            if let Some((_, why2)) = again {
+                if why2.contains("exceeded") {
+                    let idle = std::fs::metadata(&tf).and_then(|m| m.modified()).ok().and_then(|m| m.elapsed().ok()).map(|d| d.as_secs()).unwrap_or(0);
+                    if idle < 120 {
+                        eprintln!("MACHINERY: shard {} ran out of time ({}; first run: {}) while still making progress (last case started {} s before the deadline)", s, why2, why, idle);
+                        let _ = std::fs::remove_file(&tf);
+                        machinery_failure = true;
+                        continue;
+                    }
+                }
+            }
             let label = std::fs::read_to_string(&tf)
                 .ok()
                 .and_then(|t| t.lines().last().map(|l| l.to_string()));
